@@ -298,6 +298,11 @@ def run_cell(cell, srv=None, masked_cache=None):
                 else:
                     buckets.append(("C03|allowed-by-model-but-denied|" + _shape_class(shape, groups),
                                     "cell=%r response=%r" % (cell, r)))
+        # the owner is the identity that created the object, forever: whatever the request did
+        own_now = _owner_of(srv.db, uid)
+        if own_now is not None and own_now != "owner":
+            buckets.append(("C03|owner-column-differs-from-creator",
+                            "cell=%r: object %s created by 'owner' is now owned by %r" % (cell, uid, own_now)))
         for e in cli.envelope:
             buckets.append(("C02|envelope|" + e[1][0], repr(e)))
         nontrivial = (who != "owner") or (groups is not None) or shape is None or \
@@ -310,6 +315,16 @@ def run_cell(cell, srv=None, masked_cache=None):
     finally:
         if own:
             srv.close()
+
+
+def _owner_of(db, uid):
+    import sqlite3
+    con = sqlite3.connect("file:%s?mode=ro" % db, uri=True)
+    try:
+        row = con.execute("select owner from managed_objects where uid = ?", (int(uid),)).fetchone()
+        return None if row is None else row[0]
+    finally:
+        con.close()
 
 
 def _cls(r):
@@ -588,6 +603,11 @@ def run_history(spec):
                     buckets.append(("C03|store-changed-by-denied-request|" + step["op"], repr(step)))
             if r["status"] == "SUCCESS" and step["op"] == "Destroy":
                 o["alive"] = False
+            elif o["alive"]:
+                own_now = _owner_of(srv.db, o["uid"])
+                if own_now is not None and own_now != o["owner"]:
+                    buckets.append(("C03|owner-column-differs-from-creator",
+                                    "after %s by %s: obj=%r stored owner=%r" % (step["op"], who, o, own_now)))
         # owner column: the identity that created each object, forever
         dump = srv.raw_dump()
         mo = dump["managed_objects"]
